@@ -30,6 +30,7 @@ pub fn lookup(name: &str) -> Option<Box<dyn Area>> {
         "catomg" => Some(Box::new(conc::ConcAtomic { kinds: &["gauge", "intgauge"] })),
         "cvec" => Some(Box::new(conc::ConcVec)),
         "chist" => Some(Box::new(conc::ConcHist)),
+        "creg" => Some(Box::new(conc::ConcReg)),
         _ => None,
     }
 }
